@@ -276,4 +276,11 @@ impl memory::GcManaged for Chunk {
     fn blacken(&self) {
         self.constants.blacken();
     }
+
+    #[cfg(feature = "verif_hooks")]
+    fn verif_edges(&self, sink: &mut memory::verif::EdgeSink) {
+        for value in self.constants.iter() {
+            value.verif_value_edge("Chunk.constants", sink);
+        }
+    }
 }
